@@ -6,3 +6,6 @@ open Just.Props.C08
 #print axioms constants_never_exported
 #print axioms exported_iff
 #print axioms unexport_vs_parameter
+#print axioms exportBindings_eq
+#print axioms removeAll_eq
+#print axioms setAll_eq
